@@ -450,6 +450,82 @@ func RunC13(r *core.Run) {
 		w.Inc("nontrivial_cases")
 		w.Inc("overflow_path_cases")
 	})
+	// contact / identity lists filled by SEVERAL calls: the bodies of k headers, each handed to its
+	// own ParseAllContactValues / ParseAllPAIValues call on the same list ("add them to the passed
+	// PContacts"), some of them delivered in two pieces
+	r.Stage("contact-lists-filled-by-several-calls", r.Pick(150000, 8000000), func(w *core.Worker, idx int64) {
+		rr := core.NewRand(r.Seed, 0xC13, 6, uint64(idx))
+		p := ParserByName([]string{"ParseAllContactValues", "ParseAllPAIValues"}[rr.Intn(2)])
+		k := rr.Range(2, 4)
+		var buf []byte
+		var starts, ends, cuts []int
+		total := 0
+		for i := 0; i < k; i++ {
+			nv := rr.Range(1, 3)
+			body, _ := gen.NameAddrValue(rr, nv, false, false)
+			starts = append(starts, len(buf))
+			buf = append(buf, body...)
+			ends = append(ends, len(buf))
+			c := -1
+			if rr.Intn(3) == 0 {
+				c = starts[i] + rr.Intn(len(body)+1)
+			}
+			cuts = append(cuts, c)
+			total += nv
+		}
+		run := func(cc int) (res []int64, pan string) {
+			cfg := ample
+			cfg.ContactCap = cc
+			ob := p.New(cfg)
+			for i := 0; i < k; i++ {
+				o := starts[i]
+				if cuts[i] >= 0 {
+					n, e, pn, _ := safeCall(ob, isoCopy(buf[:cuts[i]]), o)
+					if pn != "" {
+						return nil, pn
+					}
+					if e != sipsp.ErrHdrMoreBytes {
+						res = append(res, int64(n), int64(e))
+						continue
+					}
+					o = n
+				}
+				n, e, pn, _ := safeCall(ob, buf[:ends[i]], o)
+				if pn != "" {
+					return nil, pn
+				}
+				res = append(res, int64(n), int64(e))
+			}
+			var v view.Vec
+			v.Reset(len(buf))
+			ob.View(&v, view.MsgOpt{Opt: view.Opt{CapIndep: true, ContactLimit: 0}})
+			return append(res, v.N...), ""
+		}
+		ref, pan := run(total + 3)
+		w.Eval(1)
+		if pan != "" {
+			return
+		}
+		for cc := -1; cc <= total; cc++ {
+			got, pan := run(cc)
+			w.Eval(1)
+			same := pan == "" && len(got) == len(ref)
+			for i := 0; same && i < len(got); i++ {
+				same = got[i] == ref[i]
+			}
+			if !same {
+				bc := append([]byte(nil), buf...)
+				w.Fail("several-calls-depend-on-capacity/"+p.Name, func() *core.Violation {
+					return core.V(fmt.Sprintf("%s: %d header bodies parsed by consecutive calls into one list: with capacity %d the (offset, verdict) sequence and the capacity-independent view are %v (panic %q), with ample capacity %v",
+						p.Name, k, cc, got, pan, ref), bc, map[string]any{"call_offsets": starts, "first_piece_ends": cuts, "total_values": total})
+				})
+				return
+			}
+		}
+		w.Nontrivial(core.HashBytes(buf))
+		w.Inc("nontrivial_cases")
+		w.Inc("overflow_path_cases")
+	})
 	r.Require("C13 accepted inputs compared", r.Counter("nontrivial_cases"), 5000)
 	r.Require("C13 overflow-path cases", r.Counter("overflow_path_cases"), 2000)
 }
